@@ -29,7 +29,7 @@ SHARDS_QUICK = 4
 @st.composite
 def detrend_case(draw, tier):
     order = draw(st.integers(0, 5))
-    N = draw(st.one_of(st.integers(1, 12), st.integers(8, 5000), gens.loguniform_int(8, 5000)))
+    N = draw(st.one_of(st.integers(1, 12), st.integers(8, 5000), gens.loguniform_int(8, 5000), gens.loguniform_int(5000, 70000)))
     return {"order": order, "N": N, "seed": draw(st.integers(0, 2 ** 31 - 1)), "scale": draw(st.sampled_from([1.0, 1e-3, 1e3])),
             "offset": draw(st.sampled_from([0.0, 1.0, 1e3, 1e6, -1e6])), "kind": draw(st.sampled_from(["noise", "walk", "poly", "ints"])),
             "pdeg": draw(st.integers(0, 5))}
@@ -74,7 +74,8 @@ def oracle_detrend(case):
     y2 = np.asarray(polynomial_detrend(y.copy(), order=order), dtype=float)
     if not np.max(np.abs(y2 - y)) <= 1e-9 * np.max(np.abs(x)) + 1e-300:
         viol.append(V("not_idempotent", N=N, order=order, diff=float(np.max(np.abs(y2 - y)))))
-    return Res(viol, order >= 2 and N > order + 1, ["detrend:o=%d" % order, "detrend:N<=order" if N <= order else "detrend:N>order"])
+    return Res(viol, order >= 2 and N > order + 1, ["detrend:o=%d" % order, "detrend:N<=order" if N <= order else "detrend:N>order"]
+               + (["detrend:N>6000"] if N > 6000 else []))
 
 
 @st.composite
